@@ -190,7 +190,7 @@ def _gen_seg(rng):
     def opt(gen):
         return None if rng.random() < 0.4 else gen()
 
-    return [
+    out = [
         "seg",
         h,
         w,
@@ -201,6 +201,16 @@ def _gen_seg(rng):
         rng.random() < 0.3,
         target if rng.random() < 0.5 else None,
     ]
+    r = pyrandom.Random(rng.random())  # one draw: the rest of the scenario stream is unchanged
+    if out[8] is not None and nb >= 2 and r.random() < 0.2:
+        # a board with holes: the start segmentation leaves some cells outside every block (the
+        # builder treats them as not part of the region)
+        keep = list(target)
+        del keep[r.randrange(nb)]
+        out[8] = keep
+        out[3] = None if out[3] is None else min(out[3], len(keep))
+        out[5] = None if out[5] is None else min(out[5], min(len(b) for b in keep))
+    return out
 
 
 def _gen_choice(rng):
@@ -293,6 +303,14 @@ def generate(rng, tier, index):
     sc["uniqueness"] = "fake" if shape == "plain" or rng.random() < 0.3 else None
     sc["pretest"] = rng.choice([None, None, 0.7, 0.9])
     sc["clue_penalty"] = rng.choice([None, None, 1, 3])
+    # failure before the second execution (same process, same pattern objects when shared): a call
+    # that generate_problem rejects, or a generation during which the solver callback raises
+    r = pyrandom.Random(rng.random())  # one draw: the rest of the scenario stream is unchanged
+    q = r.random()
+    if q < 0.12:
+        sc["failure_first"] = {"kind": "rejected_call", "form": r.choice(["both", "both", "neither"])}
+    elif q < 0.24:
+        sc["failure_first"] = {"kind": "solver_raises", "at": r.choice([0, 1, 1, 2, 3, 5])}
     return sc
 
 
@@ -306,6 +324,8 @@ def _gen_prng_real(rng):
         sc["b"] = a + w - 1
     if t == "real_shuffle":
         sc["n"] = rng.randint(0, 12) if rng.random() < 0.8 else rng.choice([255, 256, 257, 1000, 5000])
+    if pyrandom.Random(rng.random()).random() < 0.4:
+        sc["reject_first"] = True
     return sc
 
 
@@ -347,12 +367,29 @@ def _valid_pattern(p):
         _, h, w, mn, mx, ms, xs, allow, init = p
         if h < 1 or w < 1:
             return False
-        if init is not None and not c18_segment._is_partition_json(init, h, w):
+        if init is not None and not _is_partial_partition_json(init, h, w):
             return False
         return all(v is None or v >= 1 for v in (mn, mx, ms, xs))
     if t in ("list", "tuple"):
         return all(_valid_pattern(i) for i in p[1])
     return False
+
+
+def _is_partial_partition_json(blocks, h, w):
+    """Non-empty connected disjoint blocks inside the board (cells outside every block are holes)."""
+    seen = set()
+    if not blocks:
+        return False
+    for b in blocks:
+        if not b:
+            return False
+        for y, x in b:
+            if not (0 <= y < h and 0 <= x < w) or (y, x) in seen:
+                return False
+            seen.add((y, x))
+        if not c18_segment._connected([tuple(c) for c in b]):
+            return False
+    return True
 
 
 def valid(sc):
@@ -441,6 +478,17 @@ def _run_prng(sc, res):
         res.hit("degraded:internal_names_missing")
         res.log("degraded")
         return
+    if sc.get("reject_first"):
+        # calls the deterministic PRNG rejects (bad range, too wide a range, nothing to choose from);
+        # the uniformity / reproducibility statements must hold just the same afterwards
+        n_rej = 0
+        for f in (lambda: dr.randint(3, 1), lambda: dr.choice([]), lambda: dr.randint(0, dr._XORSHIFT_DOMAIN_SIZE), lambda: srandom.choice(())):
+            try:
+                f()
+            except Exception:
+                n_rej += 1
+        if n_rej:
+            res.hit("fault:rejected_prng_calls_first")
     if t == "randint":
         _prng_randint(sc, res, dr)
     elif t == "choice":
@@ -967,9 +1015,46 @@ def check_value(p, cur, nxt, path, out):
         # a segmentation builder has no choice set; what a neighbour may be is what C18 states: a
         # partition of the board into orthogonally connected blocks
         _, h, w = p[0], p[1], p[2]
-        v = c18_segment.check_partition(nxt, h, w)
-        if v is not None:
-            out.append(("C19/neighbour-outside-choice-set", f"{path}: segmentation value is not a valid partition of the {h}x{w} board: {v[1]}"))
+        region = None
+        if p[8] is not None:
+            region = {(c[0], c[1]) for b in p[8] for c in b}
+            if len(region) == h * w:
+                region = None
+        if region is None:
+            v = c18_segment.check_partition(nxt, h, w)
+            if v is not None:
+                out.append(("C19/neighbour-outside-choice-set", f"{path}: segmentation value is not a valid partition of the {h}x{w} board: {v[1]}"))
+            return
+        # board with holes: disjoint non-empty connected blocks inside the board that still hold every cell of the region
+        bad = None
+        seen = set()
+        if not isinstance(nxt, list):
+            bad = f"value is a {type(nxt).__name__}, not a list of blocks"
+        else:
+            for bi, b in enumerate(nxt):
+                if not isinstance(b, list) or not b:
+                    bad = f"block #{bi} is empty or not a list"
+                    break
+                cells = []
+                for c in b:
+                    if not (isinstance(c, (tuple, list)) and len(c) == 2) or not (0 <= c[0] < h and 0 <= c[1] < w):
+                        bad = f"block #{bi} holds {c!r}, not a cell of the board"
+                        break
+                    c = (c[0], c[1])
+                    if c in seen:
+                        bad = f"cell {c} appears twice"
+                        break
+                    seen.add(c)
+                    cells.append(c)
+                if bad:
+                    break
+                if not c18_segment._connected(cells):
+                    bad = f"block #{bi} {sorted(cells)} is not orthogonally connected"
+                    break
+            if bad is None and not region <= seen:
+                bad = f"cells {sorted(region - seen)[:4]} of the region are in no block"
+        if bad is not None:
+            out.append(("C19/neighbour-outside-choice-set", f"{path}: segmentation value is not a valid segmentation of the {h}x{w} board with holes: {bad}"))
         return
     if t in ("list", "tuple"):
         want_type = list if t == "list" else tuple
@@ -1102,7 +1187,11 @@ def _answer_score(shape, decided):
     return sum(1 for d in decided if d)
 
 
-def exec_gen(sc, variant, res, check=True, retain=True, shared=None):
+class _InjectedFailure(Exception):
+    """The solver callback fails (stands for a backend timeout / crash in the user's solver function)."""
+
+
+def exec_gen(sc, variant, res, check=True, retain=True, shared=None, fail_at=None, restore=True, rejected_first=None):
     """One execution of generate_problem under interference `variant`; returns a _Trace.
 
     retain=False: the harness keeps no reference to any problem object it is shown (only value
@@ -1164,6 +1253,9 @@ def exec_gen(sc, variant, res, check=True, retain=True, shared=None):
     real_ctx = {}
 
     def fake_solver(problem):
+        if fail_at is not None and len(tr.seq) >= fail_at:
+            res.hit("fault:solver_callback_raised_mid_generation")
+            raise _InjectedFailure("injected: the solver callback failed")
         if len(tr.seq) >= sc["max_calls"]:
             raise _StopRun()
         note(problem, f"solver call {len(tr.seq)}")
@@ -1287,6 +1379,25 @@ def exec_gen(sc, variant, res, check=True, retain=True, shared=None):
                 pattern = build_pattern(pat_json, G)
                 if shared is not None:
                     shared["pattern"] = pattern
+            if rejected_first is not None:
+                # a call that generate_problem rejects because of its arguments, made after seeding:
+                # the ordinary call that follows must behave as if it had never happened
+                def never(problem):
+                    raise _StopRun()
+
+                try:
+                    if rejected_first == "both":
+                        G.generate_problem(never, initial_problem=[0], neighbor_generator=lambda q: iter(()), builder_pattern=pattern)
+                    else:
+                        G.generate_problem(never)
+                    tr.rejected = "returned"
+                except _StopRun:
+                    tr.rejected = "ran"
+                except (ValueError, TypeError):
+                    tr.rejected = "rejected"
+                    res.hit("fault:rejected_generate_problem_call_first")
+                except Exception:
+                    tr.rejected = "other"
             if sc["use_builder_pattern"]:
                 # generate_problem builds the neighbour generator itself; the initial problem is
                 # recomputed here only for the fake solver's clue counter (same PRNG state restored)
@@ -1324,6 +1435,9 @@ def exec_gen(sc, variant, res, check=True, retain=True, shared=None):
             tr.stopped = True
             tr.result = ("stopped",)
             tr.result_obj = None
+        except _InjectedFailure:
+            tr.result = ("failed",)
+            tr.result_obj = None
         except core.HarnessError:
             raise
         except Exception as e:
@@ -1334,9 +1448,10 @@ def exec_gen(sc, variant, res, check=True, retain=True, shared=None):
         purity("end of run")
     finally:
         seam.restore()
-        core.restore_module_state(srandom, saved[0])
-        core.restore_module_state(dr, saved[1])
-        pyrandom.setstate(saved[2])
+        if restore:
+            core.restore_module_state(srandom, saved[0])
+            core.restore_module_state(dr, saved[1])
+            pyrandom.setstate(saved[2])
     if check:
         # returned problem must be one the solver saw, reported sat, and uniqueness accepted
         if tr.result[0] == "value":
@@ -1429,9 +1544,29 @@ def _run_gen(sc, res, variants=None):
     if not det:
         return
     n_events = len(res.events)
-    b = exec_gen(sc, 1, res, retain=False, shared=shared)
+    ff = sc.get("failure_first")
+    outer = None
+    try:
+        if ff is not None and ff["kind"] == "solver_raises":
+            # a generation that fails half-way, in this very process (module state is not put back)
+            import cspuz.generator.srandom as srandom
+            import cspuz.generator.deterministic_random as dr
+
+            outer = (srandom, dr, core.snapshot_module_state(srandom), core.snapshot_module_state(dr), pyrandom.getstate())
+            exec_gen(sc, 1, res, check=False, retain=False, shared=shared, fail_at=ff["at"], restore=False)
+        b = exec_gen(sc, 1, res, retain=False, shared=shared, rejected_first=ff["form"] if ff is not None and ff["kind"] == "rejected_call" else None)
+    finally:
+        if outer is not None:
+            core.restore_module_state(outer[0], outer[2])
+            core.restore_module_state(outer[1], outer[3])
+            pyrandom.setstate(outer[4])
     res.hit("perturb:second_execution_retains_no_problem_objects")
     del res.events[n_events:]
+    if getattr(b, "rejected", None) in ("returned", "ran", "other"):
+        # the call was not rejected (it ran a generation of its own): the PRNG has legitimately advanced
+        res.inconclusive = True
+        res.hit("inconclusive:rejected_call_was_not_rejected")
+        return
     res.log("B", b.seq, b.result, b.gen_calls)
     for k, m in b.violations[:3]:
         res.violate(k, m + " [execution B]")
@@ -1567,7 +1702,7 @@ def pre_check(tier, master):
     fired = {}
     scs = prng_scenarios(tier)
     for i, sc in enumerate(scs):
-        sc = dict(sc, seed=0, index=-1 - i)
+        sc = dict(sc, seed=0, index=-1 - i, reject_first=(i % 2 == 1))
         r = run(sc)
         evaluations += 1
         for k, v in r.counters.items():
